@@ -103,22 +103,22 @@ Definition auto_heartbeat (E : env) (before after : acct) : acct :=
 Definition must_write (P : params) (amt : N) (bal : acct) : bool :=
   negb (amt =? 0) || (0 <? reward_units P (a_algos bal)) || negb (p_unfunded P).
 
-Definition move (E : env) (from to amt : N) (fr tr : option N) : M (option N * option N) :=
+(* one side of Move (the Go code spells the two sides out one after the other): look up,
+   apply pending rewards, track them, write the adjusted balance if meaningful *)
+Definition move_side (E : env) (debit : bool) (a amt : N) (r : option N) : M (option N) :=
   let P := e_P E in
-  fromBal <- m_lookup from ;;
-  fromNew <- lift (with_rewards P (e_lvl E) fromBal) ;;
-  fr' <- lift (track fr (a_algos fromNew) (a_algos fromBal)) ;;
-  when (must_write P amt fromBal)
-       (let '(v, o) := osub 64 (a_algos fromNew) amt in
-        if o then fail E_OVERSPEND
-        else m_put from (auto_heartbeat E fromBal (set_algos fromNew v))) ;;;
-  toBal <- m_lookup to ;;
-  toNew <- lift (with_rewards P (e_lvl E) toBal) ;;
-  tr' <- lift (track tr (a_algos toNew) (a_algos toBal)) ;;
-  when (must_write P amt toBal)
-       (let '(v, o) := oadd 64 (a_algos toNew) amt in
-        if o then fail E_APPLY
-        else m_put to (auto_heartbeat E toBal (set_algos toNew v))) ;;;
+  bal <- m_lookup a ;;
+  new <- lift (with_rewards P (e_lvl E) bal) ;;
+  r' <- lift (track r (a_algos new) (a_algos bal)) ;;
+  when (must_write P amt bal)
+       (let '(v, o) := (if debit then osub 64 (a_algos new) amt else oadd 64 (a_algos new) amt) in
+        if o then fail (if debit then E_OVERSPEND else E_APPLY)
+        else m_put a (auto_heartbeat E bal (set_algos new v))) ;;;
+  ret r'.
+
+Definition move (E : env) (from to amt : N) (fr tr : option N) : M (option N * option N) :=
+  fr' <- move_side E true from amt fr ;;
+  tr' <- move_side E false to amt tr ;;
   ret (fr', tr').
 
 (* roundCowState.Get(addr, withPendingRewards = true) *)
